@@ -397,7 +397,11 @@ ADDENDA2 = {
             "their sum = intensity = mass of the truncated support minus the origin cell for every additive non-negative measure and every "
             "increasing axis; probabilities sum to 1; in n dimensions the cell is the product of the 1-d cells of each state's own axis.",
             "", " + source-derived definitions (PyLite translator) re-proved on every run"),
-    "C02": (" Hand-built grids with axes of different lengths (a geometry no shipped constructor produces) for both copula samplers.", "", ""),
+    "C02": (" Hand-built grids with axes of different lengths (a geometry no shipped constructor produces) for both copula samplers. "
+            "Source-derived tie: construction and lookup of the alias method, the binary search tree (explicit-stack loop), the adapted 1-d "
+            "tree, the 256-slot table and the jump vector are translated from /repo's source on every run (while loops with fuel); proved on the "
+            "translation: for every probability vector the loops terminate and the uniforms sent to state k have total length p_k, a state of "
+            "probability 0 is never returned.", "", " + source-derived definitions (PyLite translator) re-proved on every run"),
     "C04": (" Source-derived tie: compute_mu_h (the fold), the process drift of MarkovChainProcess.initialisation, vol_adjustment, the equivalent "
             "diffusion coefficient and the truncated measure's integrals are translated from /repo's source on every run; proved on the translation: "
             "mu_h = sum of x_k times the mass of the C01 cell of x_k for every axis and origin, drift + sum x_k q_k = the mean rate of the truncated "
@@ -409,7 +413,9 @@ ADDENDA2 = {
             "all positive variances and costs of any length, a True verdict implies squared extrapolated bias <= theta rmse^2, both read the same "
             "theta. Every numeric argument in every carrier that holds its value exactly (ints, numpy scalars, 0-d arrays, lists).",
             " One defect repaired in /repo (a6d6f48: integer cost array).", " + source-derived definitions (PyLite translator) re-proved on every run"),
-    "C09": (" High moment orders (strata up to 175) with a 50-digit reference.",
+    "C09": (" High moment orders (strata up to 175) with a 50-digit reference. Second source-derived tie: the x^n e^(-ax) primitive (every n, "
+            "integration by parts proved by induction on the translated helper), the variance-gamma, Merton and CGMY closed forms with the "
+            "special functions as parameters: equal to the model's term lists, additive wherever the intervals lie.",
             " Recorded findings: float overflow of the closed form's intermediates from order ~144.", ""),
     "C13": (" Source-derived tie: CTMCGrid.refine (whole method, attribute stores as results), middle, left_point / right_point, the uniform and "
             "fixed-size constructors after the root search, the credit axes and Coordinate.__imul__ are translated from /repo's source on every "
@@ -429,6 +435,24 @@ ADDENDA2 = {
             "spread, the CDS legs / residual of both pricers, CDS.evaluate and interval_I; proved on the translation: theta is the measure of the "
             "union of the default half-spaces (inclusion-exclusion) for every finitely additive non-negative measure, non-negative and monotone "
             "in each threshold; the fair spread equates the legs. User-defined copulas that are not symmetric functions.", "", ""),
+    "C07": (" Source-derived tie: the statistics (mean, stddev, mc_stddev on the paths x components array), Statistic.add, discounting, "
+            "Product.__call__ and the control-variate regression kernel with its component loop are translated from /repo's source on every run "
+            "(numpy's ddof / bias keywords read from the call, sqrt and pinv as function parameters); proved on the translation: textbook price "
+            "and standard error for every sample size and payoff dimension, adjusted sample = Y - b (X - prices), variance not above the raw one "
+            "under the normal equations, the one-control coefficient minimises the variance.", "", " + source-derived definitions (PyLite translator) re-proved on every run"),
+    "C10": (" Second source-derived tie: the cumulant classes of all five families, the constructors' triplet drift, derived parameters and the "
+            "exponential models' drift / omega (43 functions); proved on the translation: cumulants are the derivatives of the Levy-Khintchine "
+            "exponent and equal the translated whole-line moments of the measure classes; drift() + psi(-i) = r - d.", "", ""),
+    "C12": (" Source-derived tie: volume, _mass_1d / _mass_2d / _mass_3d, the recursive _mass_nd, tail_integrals, sign and interval_I are "
+            "translated from /repo's source on every run; proved on the translation: volume is the inclusion-exclusion sum for every dimension "
+            "and additive under a split of any coordinate, the fast paths equal the general recursion on every rectangle not containing the "
+            "origin, _mass_nd is additive for every dimension, whole-line margins, non-negativity for Clayton.", "", " + source-derived definitions (PyLite translator) re-proved on every run"),
+    "C14": (" Second source-derived tie: _integer_root, the n-dimensional Pairing.pairing / projection, RosenbergStrong in n dimensions, PairingToZd, the switch "
+            "methods of PairingToZ1d, the enumeration bound of StatesManager / Domain, a_n and upper_bound_a_n: round trips for every dimension on top "
+            "of the 2-d bijections of the first tie, exact integer root for every float estimate, the repaired enumeration bound stays proved.", "", ""),
+    "C17": (" Second source-derived tie: barrier scans and knock-in / knock-out, Asian, default-time underlyings, performances, notional "
+            "(lists, loops with break): knock-in + knock-out = vanilla for every path and history, Asian between the extremes, first-passage "
+            "characterisation of the default time, n-th-to-default monotone for every valid argpartition.", "", ""),
     "C20": (" User-defined subclasses of the shipped exponential models (same constructor, overriding discounting / drift) in every stream.", "", ""),
 }
 
